@@ -1,5 +1,5 @@
 """Property -> obligations table, check-id ownership, and tier parameters."""
-from runner import Ob
+from runner import Ob, LIBC_BOUNDS
 
 # --------------------------------------------------------------------------------------- check ids
 # id -> (properties the id witnesses, meaning).  A property's check evaluates only the ids it owns
@@ -161,6 +161,8 @@ fam('c08_provided', 'g_alg', [(2, 2, k) for k in _light] + [(1, 1, k) for k in _
 fam('c08_sub', 'g_alg', Q8[:6], D8)
 fam('c08_difference_ref', 'g_alg', [(1, 1), (2, 2), (3, 2), (2, 3)], [(3, 3), (4, 2)], unwind=lambda c: 9)
 fam('c08_difference_ref_slices', 'g_alg', [(1, 1), (2, 1), (2, 2)], [(3, 2), (2, 3)], unwind=lambda c: 6)
+LIBC_BOUNDS['c08_difference_ref_slices'] = 5   # slices of at most 3 bytes
+LIBC_BOUNDS['c01_lookup_unsized'] = 5
 fam('c14_map c14_set', 'g_alg', Q8 + [(2, 3)], [(4, 4), (4, 1), (1, 4), (5, 5)])
 fam('c14_partial', 'g_alg', [1, 2, 3], [4])
 
@@ -189,9 +191,8 @@ fam('c05_panics', 'g_panic', [0, 1, 2, 3], [4, 5], profiles=('rel', 'dbg'))
 fam('c11_or', 'g_entry', [1, 2, 3], [4, 5], dprofiles=('rel', 'dbg'))
 fam('c11_variants c11_key_and_modify', 'g_entry', [0, 1, 2, 3], [4, 5], dprofiles=('rel', 'dbg'))
 
-# (2, 9), (2, 17): request arrays longer than 8 / 16 keys (a u8 / u16 bit set indexed by request position); J <= 20 keeps libcore's sort on its
-# insertion-sort path (above that the quicksort recursion does not finish in the symbolic execution)
-fam('c13_disjoint', 'g_misc', [(0, 0), (2, 0), (0, 2), (1, 1), (2, 1), (1, 2), (2, 2), (3, 2), (2, 3), (3, 3)], [(4, 3), (3, 4), (4, 4), (5, 2), (2, 9), (2, 17)], profiles=('rel', 'dbg'))
+# (2, 9), (2, 17), (2, 33): request arrays longer than 8 / 16 / 32 keys (a u8 / u16 / u32 bit set indexed by request position)
+fam('c13_disjoint', 'g_misc', [(0, 0), (2, 0), (0, 2), (1, 1), (2, 1), (1, 2), (2, 2), (3, 2), (2, 3), (3, 3)], [(4, 3), (3, 4), (4, 4), (5, 2), (2, 9), (2, 17), (2, 33)], profiles=('rel', 'dbg'), unwind=lambda c: max(c) + 2 if c[1] <= 4 else 4)   # long request arrays: a low base bound (it also bounds recursion depth in libcore's sort), loops deepened individually
 fam('c13_disjoint_tok', 'g_misc', [1, 2, 3], [4, 5])
 fam('c15_clone c15_set_clone', 'g_misc', [0, 1, 2, 3], [4, 5], dprofiles=('rel', 'dbg'))
 fam('c15_zst', 'g_misc', [1, 2, 3], [])   # zero-sized, never-equal keys
@@ -220,8 +221,9 @@ fam('c17_set', 'g_liar', [(1, 1), (2, 1), (1, 2)], [(2, 2), (3, 2)])   # (2,2): 
 fam('c06_refs c06_refs_set', 'g_map', [1, 2, 3], [4])
 fam('c01u_ops', 'g_map', [4, 6, 8], [10, 12])
 fam('c07u_ops', 'g_set', [4, 6, 8], [10, 12])
-fam('c01w_ops', 'g_map', [(18, 17), (18, 16)], [(34, 33), (34, 32), (66, 66), (72, 65), (72, 64)], unwind=lambda c: c[0] + 2)
-fam('c07w_ops', 'g_set', [(18, 17), (18, 16)], [(34, 33), (34, 32), (66, 66), (72, 65), (72, 64)], unwind=lambda c: c[0] + 2)
+fam('c01w_ops', 'g_map', [(18, 17), (18, 16)], [], unwind=lambda c: c[0] + 2)
+fam('c07w_ops', 'g_set', [(18, 17), (18, 16)], [], unwind=lambda c: c[0] + 2)
+fam('c01_lookup_unsized', 'g_map', [1, 2], [3], unwind=lambda c: 6)
 fam('c01_hist', 'g_map', [(2, 2)], [(2, 3), (3, 3), (3, 4)], unwind=lambda c: c[0] + 2)
 
 # second/third parameter W selects the rendering ({} / {:?} / {:#?}) or the iterator kind: one per obligation
@@ -272,7 +274,7 @@ PROPS = {
     'C09': dict(fams='c09_iter c09_keys c09_values c09_iter_mut c09_values_mut c09_set_iter c09_defaults c09_provided c09_set_provided c09_zst'),
     'C10': dict(fams='c10_into_iter c10_into_keys c10_into_values c10_set_into_iter c10_drain c10_set_drain c10_provided c10_set_provided c10_drain_methods c10_set_drain_methods '
                      'c10_zst c04_internal c04_set_internal'),   # "each once" also when the closure driving for_each/fold panics
-    'C01': dict(fams='c01_insert c01_insert_kv c01_checked_insert c01_lookup c01_index c01_remove c01_remove_entry c01_retain c01_clear c01_drain_all c10_drain c01_hist c01u_ops c01w_ops c01_zst '
+    'C01': dict(fams='c01_insert c01_insert_kv c01_checked_insert c01_lookup c01_index c01_remove c01_remove_entry c01_retain c01_clear c01_drain_all c10_drain c01_hist c01u_ops c01w_ops c01_lookup_unsized c01_zst '
                      'c03_insert c03_insert_kv c03_checked_full c03_replace_full'),   # a rejected insertion leaves exactly the previous associations
 }
 
